@@ -130,6 +130,12 @@ def run(ctx):
     c14.run(ctx.sub("DEP-C14"), deps=False)
 
     entries_independent(ctx, "R3")
+    # at the command line the role a file is presented for is its own declared type and nothing
+    # else: success is reported only after verify_root (declared type root) or
+    # verify_delegation(declared type, ...) accepted (C17's rule set, re-evaluated here)
+    from . import c17
+
+    c17.run(ctx.sub("DEP-C17"))
 
 
 def entries_independent(ctx, rule):
